@@ -760,7 +760,7 @@ int main(int argc, char** argv) {
   }
 
   for (long k = H.firstCase(); k < H.endCase(); ++k) {
-    Rng rng(H.caseSeed(k));
+    Rng rng(mix(H.caseSeed(k), (uint64_t)H.paramInt("salt", 0))); // salt: other random inputs for the same plan
     Entry en = (size_t)k < exh.size() ? exh[k] : rnd[(k - exh.size()) % rnd.size()];
     std::string comp, fam, sigx;
     unsigned pLo = 1 + en.slice * P / NSLICE, pHi = (en.slice + 1) * P / NSLICE;
